@@ -384,6 +384,7 @@ func run(cx *lib.Ctx) {
 	}
 	directedUnify(cx)
 	directedSharedAttr(cx)
+	directedMarkedBody(cx)
 	corrDec(cx)
 }
 
